@@ -23,6 +23,11 @@ func includeTag(source string) (func(io.Writer, render.Context) error, error) {
 		filename := filepath.Join(filepath.Dir(ctx.SourceFile()), rel)
 		s, err := ctx.RenderFile(filename, map[string]any{})
 		if err != nil {
+			// a break or continue in the included template is outside any loop there: it is that template's
+			// error, not an interrupt for a loop of the including template
+			if c, ok := err.(interface{ Cause() error }); ok && (c.Cause() == errLoopBreak || c.Cause() == errLoopContinueLoop) {
+				return ctx.Errorf("%s (in included template %q)", c.Cause(), rel)
+			}
 			return err
 		}
 		_, err = io.WriteString(w, s)
